@@ -205,7 +205,33 @@ def _degenerate():
         br = WishboneCSRBridge(bus)
         return Harness(br, flat_ports(br, bus), br=br, bus=bus)
 
-    return {"mux-registers-wider-than-their-ranges": mux_wide_regs, "mux-sparse-40-bit-no-sharing": mux_sparse, "mux-empty": mux([]), "mux-write-only": mux(["w", "w"]), "mux-read-only": mux(["r"]), "csr-decoder-empty": csr_dec,
+    def csr_dec_frozen():
+        # a decoder whose OWN memory map is frozen (it is a window of an outer map already, as when nested in another
+        # decoder or placed behind a bridge), elaborated on its own - repeatedly, like every member of this family
+        d = csr.Decoder(addr_width=5, data_width=8)
+        subs = []
+        for i in range(3):
+            b = csr.Interface(addr_width=2, data_width=8, path=(f"p{i}",))
+            b.memory_map = MemoryMap(addr_width=2, data_width=8)
+            d.add(b)
+            subs.append(b)
+        outer = csr.Decoder(addr_width=8, data_width=8)
+        outer.add(d.bus)
+        return Harness(d, flat_ports(d, *subs), dec=d)
+
+    def wb_dec_frozen():
+        d = wishbone.Decoder(addr_width=5, data_width=8, granularity=8)
+        subs = []
+        for i in range(3):
+            b = wishbone.Interface(addr_width=2, data_width=8, granularity=8, path=(f"p{i}",))
+            b.memory_map = MemoryMap(addr_width=2, data_width=8)
+            d.add(b)
+            subs.append(b)
+        d.bus.memory_map.freeze()
+        return Harness(d, flat_ports(d, *subs), dec=d)
+
+    return {"csr-decoder-with-frozen-map": csr_dec_frozen, "wishbone-decoder-with-frozen-map": wb_dec_frozen,
+            "mux-registers-wider-than-their-ranges": mux_wide_regs, "mux-sparse-40-bit-no-sharing": mux_sparse, "mux-empty": mux([]), "mux-write-only": mux(["w", "w"]), "mux-read-only": mux(["r"]), "csr-decoder-empty": csr_dec,
             "wishbone-decoder-empty": wb_dec, "wishbone-decoder-sub-word-sparse-windows": wb_dec_narrow, "arbiter-no-initiators": arb0, "event-monitor-no-events": evmap0, "event-monitor-700-events": evmap300,
             "csr-event-monitor-no-events": evmon0, "gpio-one-pin": gpio1, "sram-two-words": sram1,
             "bridge-empty-map": bridge_empty, "wishbone-csr-bridge-minimal": wbcsr_min}
@@ -300,7 +326,7 @@ REFUSALS = ["csr-add-twice", "csr-add-overlap", "csr-add-name-clash", "csr-add-o
             "wb-add-twice", "wb-add-overlap", "wb-add-after-freeze", "map-add-resource-after-freeze",
             "map-window-into-itself-twice"]
 
-DEGENERATE = ["mux-registers-wider-than-their-ranges", "mux-sparse-40-bit-no-sharing", "mux-empty", "mux-write-only", "mux-read-only", "csr-decoder-empty", "wishbone-decoder-empty", "wishbone-decoder-sub-word-sparse-windows",
+DEGENERATE = ["csr-decoder-with-frozen-map", "wishbone-decoder-with-frozen-map", "mux-registers-wider-than-their-ranges", "mux-sparse-40-bit-no-sharing", "mux-empty", "mux-write-only", "mux-read-only", "csr-decoder-empty", "wishbone-decoder-empty", "wishbone-decoder-sub-word-sparse-windows",
               "arbiter-no-initiators", "event-monitor-no-events", "event-monitor-700-events", "csr-event-monitor-no-events", "gpio-one-pin",
               "sram-two-words", "bridge-empty-map", "wishbone-csr-bridge-minimal"]
 
